@@ -56,6 +56,19 @@ unsafe impl GlobalAlloc for Quarantine {
     }
 }
 
+/// does `[addr, addr + len)` touch a block released since the history began?
+pub fn released(addr: usize, len: usize) -> bool {
+    // nothing is allocated or released while the lock is held
+    let q = QUEUE.lock().unwrap_or_else(|e| e.into_inner());
+    for i in 0..q.len {
+        let (p, l) = unsafe { q.buf.add(i).read() };
+        if addr < p + l.size() && p < addr + len {
+            return true;
+        }
+    }
+    false
+}
+
 /// quarantine is on while a `Guard` is alive
 pub struct Guard;
 
